@@ -44,7 +44,7 @@ Open Scope Z_scope.
    exactly the whole turn (e.g. 24h 0' 0.0'', which reads back to 0 modulo 24 h),
    the sign sits exactly once on the leading non-zero field, the seconds are a multiple of
    10^-n_dec, and the string reads back to the value within half a unit of that decimal
-   (+ 1e-9 degree) modulo 360 degrees / 24 h *)
+   (+ 4 ulps of the double |x|*3600, resp. |x|*240 for RA seconds, + 1e-300 s) modulo 360 degrees / 24 h *)
 Theorem C04_print_grid_b64 : forall i (ra fancy : bool) nd, 0 <= i < 4678 -> -1 <= nd <= 12 ->
   in_range (grid i) = true /\
   exists p, printed_of (grid i) ra fancy nd = Some p /\
